@@ -78,6 +78,12 @@ def shapes(tier='quick'):
           comp_ns=('App',), itf_ns=[('Vendor',)])
     shape('decoy-interface-unrelated-ns', [I_io], [(0, P)], extra={'decoy': 'interface'}, comp_ns=('App', 'Deep'),
           itf_ns=[('App',)])
+    # larger structures: the composition (create_constructor, Builder.build, file assembly) is decided on the corpus only,
+    # so the quick tier too contains shapes with a 4th / 5th port per side and a multi-client port among four
+    shape('four-provides-four-requires', [I_io, I_rich, I_outonly, I_inonly],
+          [(0, P), (1, P), (2, P), (3, P), (3, R), (2, R), (1, R), (0, R)], req=('SET01', 'REMAINING'))
+    shape('mc-among-four-provides', [I_io, I_claim, I_rich, I_inonly], [(0, P), (1, P), (2, P), (3, P), (0, R)], mc=1,
+          prefix=['Sup', 'Port'])
     if tier == 'thorough':
         for fac in ('CREATE', 'IMPORT'):
             for prov in ('ALL_MTS', 'ALL_STS'):
@@ -87,12 +93,8 @@ def shapes(tier='quick'):
                           prefix=None if fac == 'CREATE' else ['X'])
         shape('mc-three-ports-mc-last', [I_io, I_rich, I_claim], [(0, P), (1, P), (2, P)], mc=2)
         # larger structures than the quick corpus: the composition is only sampled, so the thorough tier samples wider
-        shape('four-provides-four-requires', [I_io, I_rich, I_outonly, I_inonly],
-              [(0, P), (1, P), (2, P), (3, P), (3, R), (2, R), (1, R), (0, R)], req=('SET01', 'REMAINING'))
         shape('five-requires-sts', [I_rich], [(0, R), (0, R), (0, R), (0, R), (0, R)], req=('ALL', 'NONE'), fac='IMPORT')
         shape('deep-namespaces', [I_rich, I_io], [(0, P), (1, R)], comp_ns=('A', 'B', 'C'), itf_ns=[('A',), ('A', 'B')])
-        shape('mc-among-four-provides', [I_io, I_claim, I_rich, I_inonly], [(0, P), (1, P), (2, P), (3, P), (0, R)], mc=1,
-              prefix=['Sup', 'Port'])
     return S
 
 
